@@ -27,14 +27,14 @@ CLAIMED = {
           "Conditional on the recursion budget (Python's recursion limit; known finding F10). Hull clause proved for rows not folded in as outliers; known finding: in >=2-dim trees rows beyond a column's final root range widen the tight range.",
           "DESIGN.md §5 C18"),
   "C01": ("Lean 4 theorems: passing the filter needs >= low_threshold distinct entities per id column (both counter kinds); through the whole stateful harvest (cached sub-trees, refinement, in-place rescaling of shared bucket objects) every range of every returned bucket is the released range, for the same column, of a node of a forest tree that is a branch or a filter-passing leaf; such a node holds >= low_threshold entities whose non-folded rows have their values inside that range; safe strings only from singular filter-passing 1-dim leaves; verbatim strings only for safe indices + bit-exact correspondence of trees, harvest and microdata + every released range and verbatim string of real releases checked against the entities whose own values fall inside it",
-          "Machine-checked proof of the floor for every bucket of every harvest of every forest tree (leaf, branch and refined buckets), for all inputs over exact arithmetic with hashes and noise uninterpreted; model tied bit for bit; the floor is also evaluated on every real release.",
-          "Composition with microdata/stitching into one theorem about sample() not done; low_threshold >= 0. Known finding F12: a rare string at the edge leaf with folded outliers is released verbatim.",
+          "Machine-checked proof of the floor for every bucket of every harvest of every forest tree (leaf, branch and refined buckets) and for every string cell generated from them, for all inputs over exact arithmetic with hashes and noise uninterpreted; model tied bit for bit; the floor is also evaluated on every real release.",
+          "Composed down to the cells of sample() for one cluster (C01_sample_strings: a string cell is a mask, the code of a single-point range released for that column by a releasable node, or a safe code of a filter-passing leaf); through stitching of several clusters only via the C12 stage theorems; low_threshold >= 0. Known finding F12: a rare string at the edge leaf with folded outliers is released verbatim.",
           "DESIGN.md §5 C01"),
   "C10": ("Lean 4 theorems: the rescaling kernel sums to target or target-1 with non-negative counts; conservation through the whole harvest (for every well-shaped tree, hence every forest tree, and every RNG stream the buckets are none or add up to the root's released count or one less; as many ranges as columns) proved with ghost cell ownership, a frame by tree dimension and disjointness of sibling lists; harvest output positive; microdata emits one row per unit + bit-exact correspondence of _adjust_counts, harvest and generate_microdata + totals checked on every real bucket list",
           "Machine-checked proof of every clause for all inputs over exact arithmetic (low_threshold >= 0); executable model of bucket.py reproduces real bucket lists bit for bit (1-4 columns, refinement, recorded RNG).",
           "Doubles vs exact arithmetic in the carry loop (oracle covers the real sums).",
           "DESIGN.md §5 C10"),
-  "C11": ("Lean 4 theorems (uniform draw inside the range, singular exact, null range -> null, affine inverse monotone, rounding within 1/2, string index range and result shape, the mask prefix is a prefix of every string of the range for value maps sorted by code points) for every RNG state + exact correspondence of generate_microdata cells on real and synthetic bucket lists",
+  "C11": ("Lean 4 theorems (uniform draw inside the range, singular exact, null range -> null, affine inverse monotone, rounding within 1/2, string index range and result shape, the mask prefix is a prefix of every string of the range for value maps sorted by code points - and, without that hypothesis, for the value map fitted on any column: C11_mask_prefix_fitted) for every RNG state + exact correspondence of generate_microdata cells on real and synthetic bucket lists and of the whole one-cluster sample from the typed table",
           "Machine-checked proof for all ranges and RNG states over exact arithmetic; cells of the real generate_microdata compared exactly with the model (incl. Python round(x,p) replica and MinMaxScaler coefficients); property evaluated on every generated cell; the sortedness hypothesis is checked on every real string convertor.",
           "MinMaxScaler coefficients and Python round semantics trusted, validated by exact cell comparison.",
           "DESIGN.md §5 C11"),
@@ -54,7 +54,7 @@ CLAIMED = {
           "Proof of the decision logic and of the plan/column algebra; the data path (syndiffix.stitch over stored tables) is exercised end to end on real blobs (3-5 mixed columns, with/without ids, max_cluster_size 2-3 so that requests are stitched, column names with shared prefixes).",
           "Data path of stitched reads not modelled (partial). parquet dtype round-trip trusted.",
           "DESIGN.md §5 C15"),
-  "C16": ("Lean 4 theorems by induction over arbitrary histories (builds of two datasets with fresh or reused builder objects, reader constructions, damage, deletion): the archive is exactly the last build's members, a reader serves the archive's members only and rejects a missing / corrupt archive + real histories replayed on a temp dir against the Lean machine (members tagged by dataset through content hashes; truncation at random lengths, flipped member bytes) + content checks of real archives (member names, stored tables read back, salt byte scan, writers checked syntactically)",
+  "C16": ("Lean 4 theorems by induction over arbitrary histories (builds of two datasets with fresh or reused builder objects, reader constructions, damage, deletion, archives built elsewhere copied in, several blob names in one directory): the archive is exactly what the last build or installation left, a reader serves the archive's members only and rejects a missing / corrupt archive, operations on one name change nothing another name holds + real histories replayed on a temp dir against the Lean machine (members tagged by dataset through content hashes; truncation at random lengths, flipped member bytes) + content checks of real archives (member names, stored tables read back, salt byte scan, writers checked syntactically)",
           "Machine-checked invariant over all histories of the directory/archive machine; machine tied to blob.py by replaying generated and directed histories; content clause checked on real archives.",
           "zip/parquet formats outside the model; zipfile's corruption detection trusted and exercised.",
           "DESIGN.md §5 C16"),
@@ -70,12 +70,12 @@ CLAIMED = {
           "Machine-checked proof of the bounded/symmetric clauses for all inputs over exact arithmetic; measures.py modelled and compared bit for bit (log2 from the same libm); the statistical ranking clauses are NOT proved - they are evaluated on seeded tables and reported as support; gross deviations are reported as failures.",
           "Ranking clauses statistical (partial; known finding: one-to-one dependence can fall to ~0.56 for 5/8 categories). Entropy sign needs shares <= 1, not guaranteed under noise.",
           "DESIGN.md §5 C14"),
-  "C08": ("Lean 4 theorems: released count of N rows within 17*sd+1/2 of N, large groups pass, noise off => hard floor only, rescaling loses at most one unit, one row per unit, patch keeps the left count, every forest tree holds every row exactly once, and composed for one cluster: rows = the root's released count or one less, or none + bit-exact correspondence of trees/harvest and of the composed one-cluster sample + len(sample()) checked against the bound on generated tables",
-          "Machine-checked proof of each link of the row-count chain and of its composition for one cluster; across clusters the chain is the stitching theorems (C12); evaluated on every real table.",
+  "C08": ("Lean 4 theorems: released count of N rows within 17*sd+1/2 of N, large groups pass, noise off => hard floor only, rescaling loses at most one unit, one row per unit, patch keeps the left count, every forest tree holds every row exactly once, and composed end to end for one cluster from the typed input table (convertor fitting, normalisation, forest, harvest, microdata): N-1-(17 sd+1/2) <= rows <= N+17 sd+1/2, empty only below low_threshold+(gap+8.5) layer_sd (C08_synthesize_single_rows; the traversal budgets see whole trees: SdxProofs/Height) + bit-exact correspondence of trees/harvest and of the composed one-cluster sample from the typed table (S-sampleRaw) + len(sample()) checked against the bound on generated tables and on sequences of syntheses under changing noise levels",
+          "Machine-checked proof of the row-count clause as one theorem from the typed input table to the list of synthetic rows for one cluster (one non-null id per row, exact arithmetic, deviates bounded by 8.5); across clusters the chain is the stitching theorems (C12); evaluated on every real table.",
           "Double-precision libm not covered by the real-number bound.",
           "DESIGN.md §5 C08"),
-  "C09": ("Lean 4 theorems: a singular node releases its exact values, a draw from a single-point range is that point, rescaling by ratio 1 is the identity, the null range decodes to null, a leaf of a forest tree holds all rows of each value combination it holds + exact correspondence of microdata cells and trees + multiset equality of sample() and input on generated well-populated tables",
-          "Proof of the model-level facts; exact reproduction itself is checked on every generated well-populated table; numeric decoding rests on double-precision behaviour of scaler/round, pinned cell-exactly.",
+  "C09": ("Lean 4 theorems: a singular node releases its exact values, a draw from a single-point range is that point, rescaling by ratio 1 is the identity, the null range decodes to null, a leaf of a forest tree holds all rows of each value combination it holds; decoding inverts encoding for the convertors fitted on any column (the MinMaxScaler fit has a positive scale and inverse(transform x) = x, integers / whole-second timestamps / booleans decode to the original value from a single-point range for every RNG state, the string value map is strictly sorted, holds exactly the column's strings and value_map[code(x)] = x) + the fitted coefficients, round precision and value map and every cell of sample() from the typed table compared exactly with the implementation (S-sampleRaw) + multiset equality of sample() and input on generated well-populated tables",
+          "Proof of the model-level facts incl. the encode/decode round trip of every column kind over exact arithmetic; exact reproduction itself is checked on every generated well-populated table; numeric decoding in doubles (scaler, round) is pinned bit for bit by the composed stream from the typed table.",
           "'All leaves singular under the population hypothesis' not a Lean theorem (partial).",
           "DESIGN.md §5 C09"),
 }
